@@ -55,48 +55,66 @@ def check_s(desc, acc):
         acc.violations.append(Violation(what, "%s on %s" % (msg, C.show(desc)), base, size))
 
     if desc["kind"] == "H":
-        N = list(desc["nodes"])
-        E = [tuple(sorted(e)) for e in desc["edges"]]
-        for detour in (False, True, 2):
+        N0 = list(desc["nodes"])
+        E0 = [tuple(sorted(e)) for e in desc["edges"]]
+        for detour in (False, True, 2, "shrink"):
             h = C.build(desc, detour=detour)
-            for s in (1, 2, 3):
-                lg = line_graph_def(E, s)
-                for name, fn, ref in (("s_betweenness", S.s_betweenness, nx.betweenness_centrality), ("s_closeness", S.s_closeness, nx.closeness_centrality)):
+            # stage 0: the object as built; stages 1-2 (direct build only): a hyperedge with a new node is added to the SAME object and
+            # removed again - every centrality has been computed on it before, nothing may be remembered across the change
+            stages = [None]
+            if detour is False and N0:
+                xn = "zz8" if isinstance(N0[0], str) else 10 ** 6 + 1
+                stages += ["add", "remove"]
+            for stage in stages:
+                N, E = list(N0), list(E0)
+                try:
+                    if stage == "add":
+                        h.add_edge(tuple(sorted((N0[0], xn))))
+                        N, E = N0 + [xn], E0 + [tuple(sorted((N0[0], xn)))]
+                    elif stage == "remove":
+                        h.remove_node(xn)
+                except Exception as e:
+                    bad("second-call/exception", "%s raised %s: %s" % (stage, type(e).__name__, e))
+                    break
+                tag = "" if stage is None else "second-call/"
+                for s in (1, 2, 3):
+                    lg = line_graph_def(E, s)
+                    for name, fn, ref in (("s_betweenness", S.s_betweenness, nx.betweenness_centrality), ("s_closeness", S.s_closeness, nx.closeness_centrality)):
+                        acc.evaluations += 1
+                        try:
+                            got = fn(h, s=s)
+                            want = {E[i]: v for i, v in ref(lg).items()}
+                            if not close({tuple(sorted(k)): v for k, v in got.items()}, want) or len(got) != len(E):
+                                bad(tag + "%s/value" % name, "s=%d: %r, line-graph definition %r" % (s, got, want))
+                            elif any(v > 0 for v in want.values()):
+                                acc.nontrivial.add(hash((name, s, repr(E))))
+                        except Exception as e:
+                            bad("%s/exception" % name, "s=%d raised %s: %s" % (s, type(e).__name__, e))
+                bg = bip_def(N, E)
+                for name, fn, ref in (("s_betweenness_nodes", S.s_betweenness_nodes, nx.betweenness_centrality), ("s_closeness_nodes", S.s_closeness_nodes, nx.closeness_centrality)):
                     acc.evaluations += 1
                     try:
-                        got = fn(h, s=s)
-                        want = {E[i]: v for i, v in ref(lg).items()}
-                        if not close({tuple(sorted(k)): v for k, v in got.items()}, want) or len(got) != len(E):
-                            bad("%s/value" % name, "s=%d: %r, line-graph definition %r" % (s, got, want))
-                        elif any(v > 0 for v in want.values()):
-                            acc.nontrivial.add(hash((name, s, repr(E))))
+                        got = fn(h)
+                        want = {k[1]: v for k, v in ref(bg).items() if k[0] == "n"}
+                        if not close(got, want) or len(got) != len(N):
+                            bad(tag + "%s/value" % name, "%r, bipartite definition %r" % (got, want))
                     except Exception as e:
-                        bad("%s/exception" % name, "s=%d raised %s: %s" % (s, type(e).__name__, e))
-            bg = bip_def(N, E)
-            for name, fn, ref in (("s_betweenness_nodes", S.s_betweenness_nodes, nx.betweenness_centrality), ("s_closeness_nodes", S.s_closeness_nodes, nx.closeness_centrality)):
+                        bad("%s/exception" % name, "raised %s: %s" % (type(e).__name__, e))
+                if not N:
+                    continue  # no nodes: nothing to compare
                 acc.evaluations += 1
                 try:
-                    got = fn(h)
-                    want = {k[1]: v for k, v in ref(bg).items() if k[0] == "n"}
-                    if not close(got, want) or len(got) != len(N):
-                        bad("%s/value" % name, "%r, bipartite definition %r" % (got, want))
+                    got = np.asarray(subhypergraph_centrality(h)).reshape(-1)
+                    order = sorted(N)
+                    A = np.zeros((len(N), len(N)))
+                    for e in E:
+                        for a, b in itertools.permutations(e, 2):
+                            A[order.index(a), order.index(b)] += 1
+                    want = np.log(np.diag(expm(A)))
+                    if got.shape != want.shape or np.abs(got - want).max() > 1e-9 * (1 + np.abs(want).max()):
+                        bad(tag + "subhypergraph_centrality/value", "%r, log diag expm(A) = %r (rows in sorted-label order)" % (got.tolist(), want.tolist()))
                 except Exception as e:
-                    bad("%s/exception" % name, "raised %s: %s" % (type(e).__name__, e))
-            if not N:
-                continue  # no nodes: nothing to compare
-            acc.evaluations += 1
-            try:
-                got = np.asarray(subhypergraph_centrality(h)).reshape(-1)
-                order = sorted(N)
-                A = np.zeros((len(N), len(N)))
-                for e in E:
-                    for a, b in itertools.permutations(e, 2):
-                        A[order.index(a), order.index(b)] += 1
-                want = np.log(np.diag(expm(A)))
-                if got.shape != want.shape or np.abs(got - want).max() > 1e-9 * (1 + np.abs(want).max()):
-                    bad("subhypergraph_centrality/value", "%r, log diag expm(A) = %r (rows in sorted-label order)" % (got.tolist(), want.tolist()))
-            except Exception as e:
-                bad("subhypergraph_centrality/exception", "raised %s: %s" % (type(e).__name__, e))
+                    bad("subhypergraph_centrality/exception", "raised %s: %s" % (type(e).__name__, e))
         return
     # temporal: averaged versions
     h = C.build(desc)
@@ -153,17 +171,23 @@ def check_eig(item, acc):
     w = {"kind": "eig", "n": n, "k": k, "edges": [list(e) for e in edges]}
     size = len(edges)
 
-    def mkh(es):
+    def mkh(es, preadd):
         h = Hypergraph()
-        for i in range(n):
-            h.add_node(i)
-        for e in es:
-            h.add_edge(e)
+        if preadd:
+            for i in range(n):
+                h.add_node(i)
+            for e in es:
+                h.add_edge(e)
+        else:
+            # nodes only appear through their hyperedges, last hyperedge first, nodes listed in decreasing order: the order in
+            # which the object first saw its nodes is not their numeric order (the hypergraphs here cover all their nodes)
+            for e in reversed(es):
+                h.add_edge(tuple(reversed(e)))
         return h
 
-    h = mkh(edges)
+    h = mkh(edges, False)
     perm = list(range(1, n)) + [0]  # one fixed non-trivial relabelling (the corpus itself is closed under all of them)
-    h2 = mkh([tuple(perm[v] for v in e) for e in edges])
+    h2 = mkh([tuple(perm[v] for v in e) for e in edges], True)
     W = np.zeros((n, n))
     for e in edges:
         for a, b in itertools.permutations(e, 2):
@@ -177,7 +201,7 @@ def check_eig(item, acc):
     for x0 in start_menu(n, tier):
         def runner(hh, fn, start, **kw):
             def run(ch):
-                fake = CH.FakeNumpyRandom(ch, np, menus={"rand": lambda shape: [start], "uniform": lambda shape: [start]})
+                fake = CH.FakeNumpyRandom(ch, np, menus={"rand": lambda shape: [start], "uniform": lambda shape: [start], "scalar_seq": list(start)})
                 with CH.patched(EC, np=CH.NumpyShim(np, fake)):
                     return fn(hh, **kw)
             outs = [res for script, res, ch, pruned in CH.explore(run)]
